@@ -53,7 +53,9 @@ def main(args):
         to_delete: List[pathlib.Path] = []
 
         for inner in curr_path.iterdir():
-            if not inner.is_dir():
+            if inner.is_symlink() or not inner.is_dir():
+                # Never follow symbolic links: they may lead outside the output
+                # directory, or to a recorded version under a different path.
                 continue
             exp_match = _EXPERIMENT_TASK_REGEX.match(inner.name)
             if exp_match is None:
